@@ -224,8 +224,10 @@ class Crazyflie():
 
         logger.warning('Got link error callback [%s] in state [%s]',
                        errmsg, self.state)
-        if (self.link is not None):
-            self.link.close()
+        # Use a local reference, close_link() can run in another thread at the same time
+        link = self.link
+        if (link is not None):
+            link.close()
         self.link = None
         self._cancel_pending_answers()
         if (self.state == State.INITIALIZED):
@@ -297,8 +299,10 @@ class Crazyflie():
         logger.info('Closing link')
         if (self.link is not None):
             self.commander.send_setpoint(0, 0, 0, 0)
-        if (self.link is not None):
-            self.link.close()
+        # Use a local reference, a link error handled in another thread sets self.link to None
+        link = self.link
+        if (link is not None):
+            link.close()
             self.link = None
         self._cancel_pending_answers()
         self.disconnected.call(self.link_uri)
